@@ -125,13 +125,19 @@ class SelfView:
 class Ctx:
     """What a clause sees: pre/post states, arguments, receiver, result."""
 
-    def __init__(self, pre, post, args, self_ref, cls, result=None, exc=None):
+    def __init__(self, pre, post, args, self_ref, cls, result=None, exc=None, ghosts=None):
+        self.ghosts = ghosts or {}
         self.pre, self.post = pre, post
         self.a = Args(args)
         self.self_ref = self_ref
         self.cls = cls
         self.result = result
         self.exc = exc
+
+    def ghost(self, callee):
+        """result of the (last) call to `callee` on this path, when the function itself is being
+        verified; None at call sites (clauses then fall back to an existential statement)"""
+        return self.ghosts.get(callee)
 
     def sf(self, field, st=None):
         """value of self.<field> (pre-state unless st given)"""
